@@ -13,6 +13,9 @@
 //	appendto:i   append semantics on argument i: a new array or the spare capacity of argument i
 //	wrap:i       a new object that keeps a reference to argument i
 //	clone:i      a new array holding copies of the elements of argument i
+//	pooled       an object taken from a sync.Pool: scratch memory while the call owns it (writes to
+//	             it are not writes to the caller's memory), reported as global:pooled-object when it
+//	             can reach a result
 //
 // writes terms:  arg:i / recv  — the memory referenced directly by that argument is written.
 // appends terms: arg:i         — the spare capacity of that argument may be written (append semantics).
@@ -59,6 +62,10 @@ var extModels = map[string]extModel{
 	"reflect.Value.Interface": {results: []string{"recv"}},
 	"reflect.Value.Slice":     {results: []string{"recv"}},
 	"reflect.ValueOf":         {results: []string{"arg:0"}},
+	// sync.Pool: "Get selects an arbitrary item from the Pool, removes it from the Pool, and
+	// returns it to the caller" — an object other calls have used before and will use again
+	"sync.Pool.Get": {results: []string{"pooled"}},
+	"sync.Pool.Put": {},
 	// in-place mutators
 	"sort.Slice":                          {writes: []string{"arg:0"}},
 	"sort.SliceStable":                    {writes: []string{"arg:0"}},
@@ -97,6 +104,8 @@ func (a *funcAn) modelVal(term string, ctx callCtx) aval {
 	switch {
 	case term == "fresh":
 		return aval{setOf(aFresh), aset{}}
+	case term == "pooled":
+		return aval{setOf(aPooled), setOf(aPooled)}
 	case term == "recv":
 		return ctx.recv
 	case term == "recvmem":
